@@ -219,8 +219,11 @@ class extract_visitor(NodeVisitor):
 
         self.flow = self.make_flow('join', [orelse] + handlers)
         self.flow.scope.flow = self.flow
-        if hasattr(node, 'finalbody'):
-            self.visit_in_flow(node.finalbody, self.flow)
+        if getattr(node, 'finalbody', None):
+            # the finally block may open regions of its own (a nested if or loop):
+            # what follows the try statement continues after its last one
+            self.flow = self.visit_in_flow(node.finalbody, self.flow)
+            self.flow.scope.flow = self.flow
 
     visit_Try = visit_TryExcept
 
